@@ -86,12 +86,13 @@ structure Accepts (o : Opts) (fw : Bytes) (rb : ResetBlock) (secs : List Sec) : 
   valid : SectionsValid secs
   measurable : ∀ s ∈ secs, KindKnown s ∧ s.address % 4096 = 0
 
-theorem launchDigest_iff (H : Bytes → Bytes) (hH : ∀ x, (H x).length = 48) (c : Cfg) (hc : CfgIsSpec c)
+/-- the measurement of LaunchDigest (no product check: `launchDigestOld`) for an address width in range -/
+theorem launchDigestOld_iff (H : Bytes → Bytes) (hH : ∀ x, (H x).length = 48) (c : Cfg) (hc : CfgIsSpec c)
     (o : Opts) (hw : WidthOK (c.width o.product)) (fw : Bytes) (hfw : fw.length < 2 ^ 63) (d : Bytes) :
-    launchDigest H c o fw = .ok d ↔
+    launchDigestOld H c o fw = .ok d ↔
       ∃ rb secs, Accepts o fw rb secs ∧
         d = Spec.SnpLaunch.snpSpec H fw (secs.map toSpec) rb.addr o.vcpus.toNat (c.width o.product) := by
-  unfold launchDigest
+  unfold launchDigestOld launchDigestBody
   by_cases hv : o.vcpus < 1
   · rw [if_pos hv]
     constructor
@@ -190,5 +191,79 @@ theorem launchDigest_iff (H : Bytes → Bytes) (hH : ∀ x, (H x).length = 48) (
         · intro h; cases h
         · rintro ⟨rb', secs', ha, _⟩
           exact absurd ⟨ha.romAligned, ha.romFits⟩ hrom
+
+/-! ### the product check (repair: LaunchDigest refuses a product without a known address width) -/
+
+/-- for a product with a `bitWidth` entry LaunchDigest is the measurement -/
+theorem launchDigest_supported (H : Bytes → Bytes) (c : Cfg) (o : Opts) (fw : Bytes) (h : c.supported o.product = true) :
+    launchDigest H c o fw = launchDigestOld H c o fw := by
+  unfold launchDigest launchDigestOld
+  simp [h]
+
+/-- any other product is refused, whatever the image -/
+theorem launchDigest_unsupported (H : Bytes → Bytes) (c : Cfg) (o : Opts) (fw : Bytes) (hv : 1 ≤ o.vcpus)
+    (h : c.supported o.product = false) : launchDigest H c o fw = .err "product" := by
+  unfold launchDigest
+  rw [if_neg (by omega)]
+  simp [h]
+
+/-- a width in range is the width of a product with an entry (a missing key reads as 0) -/
+theorem widthOK_supported (c : Cfg) (p : Nat) (hw : WidthOK (c.width p)) : c.supported p = true := by
+  unfold Cfg.supported
+  cases hf : c.widths.find? (fun q => q.1 == p) with
+  | some q => rfl
+  | none =>
+    have h0 : c.width p = 0 := by unfold Cfg.width; rw [hf]; rfl
+    have := hw.lo
+    omega
+
+/-- with the specification's width table: the products with an entry are Milan (1) and Genoa (2), and their
+    widths are in range -/
+theorem supported_iff (c : Cfg) (hc : CfgIsSpec c) (p : Nat) : c.supported p = true ↔ p = 1 ∨ p = 2 := by
+  unfold Cfg.supported
+  rw [hc.widths]
+  unfold Spec.SnpLaunch.productWidths
+  by_cases h1 : p = 1
+  · subst h1; simp [List.find?]
+  · by_cases h2 : p = 2
+    · subst h2; simp [List.find?]
+    · have e1 : ((1 : Nat) == p) = false := by simp; omega
+      have e2 : ((2 : Nat) == p) = false := by simp; omega
+      simp [List.find?, e1, e2, h1, h2]
+
+theorem width_of_supported (c : Cfg) (hc : CfgIsSpec c) (p : Nat) (h : p = 1 ∨ p = 2) : WidthOK (c.width p) := by
+  unfold Cfg.width
+  rw [hc.widths]
+  rcases h with rfl | rfl <;> exact ⟨by decide, by decide⟩
+
+/-- sev.LaunchDigest for a product whose address width is in range (hence has an entry) -/
+theorem launchDigest_iff (H : Bytes → Bytes) (hH : ∀ x, (H x).length = 48) (c : Cfg) (hc : CfgIsSpec c)
+    (o : Opts) (hw : WidthOK (c.width o.product)) (fw : Bytes) (hfw : fw.length < 2 ^ 63) (d : Bytes) :
+    launchDigest H c o fw = .ok d ↔
+      ∃ rb secs, Accepts o fw rb secs ∧
+        d = Spec.SnpLaunch.snpSpec H fw (secs.map toSpec) rb.addr o.vcpus.toNat (c.width o.product) := by
+  rw [launchDigest_supported H c o fw (widthOK_supported c _ hw)]
+  exact launchDigestOld_iff H hH c hc o hw fw hfw d
+
+/-- **sev.LaunchDigest, total over product values**: a digest is returned exactly when the product is Milan or
+    Genoa, the image is accepted, and the digest is the specification's chain. -/
+theorem launchDigest_total (H : Bytes → Bytes) (hH : ∀ x, (H x).length = 48) (c : Cfg) (hc : CfgIsSpec c)
+    (o : Opts) (fw : Bytes) (hfw : fw.length < 2 ^ 63) (d : Bytes) :
+    launchDigest H c o fw = .ok d ↔
+      (o.product = 1 ∨ o.product = 2) ∧ ∃ rb secs, Accepts o fw rb secs ∧
+        d = Spec.SnpLaunch.snpSpec H fw (secs.map toSpec) rb.addr o.vcpus.toNat (c.width o.product) := by
+  by_cases hp : o.product = 1 ∨ o.product = 2
+  · rw [launchDigest_iff H hH c hc o (width_of_supported c hc _ hp) fw hfw d]
+    exact ⟨fun h => ⟨hp, h⟩, fun h => h.2⟩
+  · have hs : c.supported o.product = false := by
+      cases h : c.supported o.product with
+      | false => rfl
+      | true => exact absurd ((supported_iff c hc _).mp h) hp
+    constructor
+    · intro h
+      by_cases hv : 1 ≤ o.vcpus
+      · rw [launchDigest_unsupported H c o fw hv hs] at h; cases h
+      · unfold launchDigest at h; rw [if_pos (by omega)] at h; cases h
+    · rintro ⟨h, _⟩; exact absurd h hp
 
 end GceTcb.Proofs.SnpDigest
